@@ -763,9 +763,37 @@ impl<'a> ProgGen<'a> {
                 self.stmt(&mut body, 1);
                 self.flush_labels(&mut body);
             }
+            // a GOSUB routine local to the procedure, called from inside a loop, that returns or leaves the procedure
+            // directly (EXIT SUB in a GOSUB routine): the caller's loops must not notice
+            let local_gosub = if self.opts.gosub && self.rng.chance(1, 3) {
+                self.feat("gosub-in-sub");
+                let l = self.fresh_name("Ls");
+                let c = format!("{}%", self.fresh_name("G"));
+                if self.rng.chance(2, 3) {
+                    body.push(format!("FOR {} = 1 TO 2", c));
+                    body.push(format!("  GOSUB {}", l));
+                    body.push("NEXT".to_owned());
+                } else {
+                    body.push(format!("GOSUB {}", l));
+                }
+                Some(l)
+            } else {
+                None
+            };
             if info.is_function && self.rng.chance(4, 5) {
                 let e = self.num_expr(info.ret, 1);
                 body.push(format!("{} = {}", info.name, e));
+            }
+            if let Some(l) = local_gosub {
+                body.push(format!("EXIT {}", kw));
+                body.push(format!("{}:", l));
+                body.push("PRINT \"gs\"".to_owned());
+                if self.rng.chance(1, 3) {
+                    self.feat("exit-sub-in-gosub");
+                    body.push(format!("EXIT {}", kw));
+                } else {
+                    body.push("RETURN".to_owned());
+                }
             }
             self.subs = saved_subs;
             self.in_sub = false;
